@@ -971,6 +971,13 @@ class Oracles:
                                f"r{rm.rid}: {lr} live, num_concurrent {rm.nc}, pool {live}/{pm.size}, pulled {rm.pulled}")
                     if lr == rm.nc:
                         w.label("map:at-num_concurrent")
+            if not pm.closed:
+                try:
+                    none = pm.pool.get_group_ids()
+                    if none != set():
+                        w.fail({"C10"}, "group/no-names-gives-nonempty", repr(none))
+                except Exception as e:
+                    w.fail({"C10"}, "group/no-names-raised", type(e).__name__)
             # C10: the union for several names (and asking for it changes nothing)
             names = [n for n, r in pm.groups_live.items() if not getattr(r, "unknown_reported", False)]
             if len(names) >= 2 and not pm.closed:
